@@ -60,7 +60,7 @@ var modelledBy = map[string][]string{
 	"C04": cat(servicePath, []string{"service:type Service", "service:type dispatcher"}),
 	"C05": idlAll, "C06": idlAll, "C09": idlAll,
 	"C07": cat(genAll, []string{"gen:generateFile", "gen:main"}),
-	"C08": cat(genAll, clientPath, replyPath, []string{"call:Call.IsOneway", "call:Call.WantsMore", "call:Call.WantsUpgrade", "call:Call.GetParameters"}),
+	"C08": cat(genAll, clientPath, replyPath, []string{"call:Call.IsOneway", "call:Call.WantsMore", "call:Call.WantsUpgrade", "call:Call.GetParameters", "connection:Connection.Upgrade"}),
 	"C10": cat(servicePath, []string{"call:Call.sendMessage", "conn:Conn.ReadBytes"}),
 	"C11": cat(clientPath, []string{"conn:Conn.ReadBytes", "conn:Conn.Write", "connection:type Connection", "connection:Connection.Close", "connection:type ReadWriterContext"}),
 	"C12": cat(replyPath, clientPath, []string{"orgvarlinkservice:InterfaceNotFound.Error", "orgvarlinkservice:InvalidParameter.Error", "orgvarlinkservice:MethodNotFound.Error", "orgvarlinkservice:MethodNotImplemented.Error"}),
